@@ -15,6 +15,12 @@ def corpus():
     specs = [e("a"), e("b"), L.spec("fail", "5"), e("c")]
     out.append((L.Sched(labels=["D0", "i1:" + ",".join(specs)] + L.flush(1), note="list failing at index 2"),
                 {"requests": {1: ("i", specs)}, "cancelled": set(), "notified": []}))
+    # a command that fails after it has written part of its output: in a list (the frames before it, not its partial one) and alone
+    specs2 = [e("a"), L.spec("pfail", "5", "x"), e("c")]
+    out.append((L.Sched(labels=["D0", "i1:" + ",".join(specs2)] + L.flush(1), note="list whose second command fails after partial output"),
+                {"requests": {1: ("i", specs2)}, "cancelled": set(), "notified": [], "fault_free": True}))
+    out.append((L.Sched(labels=["D0", "c1:" + L.spec("pfail", "50", "y"), "i2:" + L.spec("pfail", "2", "z"), "c3:" + e("after")] + L.flush(3), note="single commands failing after partial output"),
+                {"requests": {1: ("c", [L.spec("pfail", "50", "y")]), 2: ("i", [L.spec("pfail", "2", "z")]), 3: ("c", [e("after")])}, "cancelled": set(), "notified": [], "fault_free": True}))
     # cancel the request in flight; the next caller must still get its own reply
     out.append((L.Sched(labels=["D0", "c1:" + e("one"), "c2:" + e("two"), "S*", "x1", "D0", "S*", "D0"] + L.flush(2), note="cancel the in-flight request"),
                 {"requests": {1: ("c", [e("one")]), 2: ("c", [e("two")])}, "cancelled": {1}, "notified": []}))
